@@ -6,6 +6,7 @@ import (
 	"slices"
 	"strings"
 	"unicode"
+	"unicode/utf8"
 
 	"golang.org/x/exp/constraints"
 )
@@ -107,9 +108,9 @@ func Min[T cmp.Ordered](x ...T) T {
 // If the string is empty, false is returned. If the first character is a non-alphabetic
 // character, false is returned.
 func FirstIsLower(s string) bool {
-	first := rune(s[0])
-	if len(s) == 0 || !unicode.IsLetter(first) {
+	if len(s) == 0 {
 		return false
 	}
-	return !unicode.IsUpper(first)
+	first, _ := utf8.DecodeRuneInString(s)
+	return unicode.IsLower(first)
 }
